@@ -297,7 +297,21 @@ func c09CpuNow() time.Duration {
 	return time.Duration(ru.Utime.Nano())
 }
 
-func c09MeasureOnce(entry string, b []byte) (res costMeasure) {
+// c09MeasureOnce measures one input. Small inputs are measured twice and the
+// smaller allocation is kept: the first call of a code path in a fresh probe
+// process also pays one-time initialisations (fmt and error-wrapping caches,
+// lazily built tables), which are not a cost of the input.
+func c09MeasureOnce(entry string, b []byte) costMeasure {
+	r := c09MeasureRaw(entry, b)
+	if len(b) <= 4096 {
+		if r2 := c09MeasureRaw(entry, b); r2.AllocAll < r.AllocAll {
+			r = r2
+		}
+	}
+	return r
+}
+
+func c09MeasureRaw(entry string, b []byte) (res costMeasure) {
 	res.N = len(b)
 	var m0, m1, m2 runtime.MemStats
 	var val any
